@@ -20,9 +20,13 @@ Sequencing (real AuthenticateAndPayFees / transaction pipeline on the staking st
   acct <signer> <nonce> <balance>
   newblock | restart | noop
   setbal <signer> <balance>
+  obs <signer> <nonce> <balance>     committed state of an account after a block (mux stage): the nonce must
+                                     be the one the last authentication left (never lower); the balance is a
+                                     witness the model adopts (handler effects are outside the model)
   auth <d|c|s> <signer> <nonce> <feeAmt> <feeGas> <ok|auth:…> <nonceBefore> <nonceAfter> <balBefore> <balAfter> <feeAcc>
   tx <idhex> <size> <env> <sig> <txok> <signer> <nonce> <feeAmt> <feeGas> <n|c|s|u> <handlerOk 0|1>
      <class> <nonceBefore> <nonceAfter> <balBefore> <balAfter>
+  mtx …same fields…                  mux stage: a real handler ran, balance after an `ok` tx is a witness
 After a DIVERGE/SPEC every later line is answered `skip`.
 -/
 namespace OasisModel.Auth.Driver
@@ -126,6 +130,20 @@ def step (st : St) (line : String) : St × String :=
     match a.toNat?, v.toNat? with
     | some a, some v => ({ st with s := OasisModel.Auth.step st.p (fun _ => default) st.s (.setBalance a v) }, "ok")
     | _, _ => diverge "bad-op"
+  | ["obs", a, n, b] =>
+    match a.toNat?, n.toNat?, b.toNat? with
+    | some a, some n, some b =>
+      match lookupNonce st.implNonce a with
+      | some m =>
+        if n < m then spec s!"nonce of account {a} decreased outside authentication: {m} -> {n}"
+        else if n != m then spec s!"nonce of account {a} changed outside authentication: {m} -> {n}"
+        else if (st.s.acct a).nonce != n then diverge s!"account {a} after block: model nonce={(st.s.acct a).nonce} impl nonce={n}"
+        else ({ st with s := OasisModel.Auth.step st.p (fun _ => default) st.s (.setBalance a b) }, "ok")
+      | none =>
+        if (st.s.acct a).nonce != n then diverge s!"account {a} after block: model nonce={(st.s.acct a).nonce} impl nonce={n}"
+        else ({ st with s := OasisModel.Auth.step st.p (fun _ => default) st.s (.setBalance a b),
+                        implNonce := setNonce st.implNonce a n }, "ok")
+    | _, _, _ => diverge "bad-op"
   | ["auth", mode, a, n, fa, fg, res, nb, na, bb, ba, facc] =>
     match parseMode mode, a.toNat?, n.toNat?, fa.toNat?, fg.toNat?, nb.toNat?, na.toNat?, bb.toNat?, ba.toNat?,
           facc.toNat? with
@@ -152,7 +170,9 @@ def step (st : St) (line : String) : St × String :=
         else if fee' != facc then diverge s!"fee accumulator model={fee'} impl={facc}"
         else ({ st with s := { st.s with acct := acct', feeAcc := fee' }, implNonce := setNonce st.implNonce a na }, "ok")
     | _, _, _, _, _, _, _, _, _, _ => diverge "bad-op"
-  | ["tx", id, size, env, sg, txok, a, n, fa, fg, kind, ho, cls, nb, na, bb, ba] =>
+  | [op, id, size, env, sg, txok, a, n, fa, fg, kind, ho, cls, nb, na, bb, ba] =>
+    if op != "tx" && op != "mtx" then diverge "bad-op" else
+    let wit := op == "mtx"
     match hexBytes id, size.toNat?, bit env, bit sg, bit txok, a.toNat?, n.toNat?, fa.toNat?, fg.toNat? with
     | some id, some size, some env, some sg, some txok, some a, some n, some fa, some fg =>
       match parseKind kind, bit ho, nb.toNat?, na.toNat?, bb.toNat?, ba.toNat? with
@@ -163,13 +183,16 @@ def step (st : St) (line : String) : St × String :=
         -- decoding is a function of the bytes
         match st.decTab.find? (·.1 == id) with
         | some (_, d') =>
-          if d' != d then diverge s!"same bytes {showBytes id} decoded differently" else go st id d ho cls nb na bb ba
-        | none => go { st with decTab := (id, d) :: st.decTab } id d ho cls nb na bb ba
+          if d' != d then diverge s!"same bytes {showBytes id} decoded differently" else go st wit id d ho cls nb na bb ba
+        | none => go { st with decTab := (id, d) :: st.decTab } wit id d ho cls nb na bb ba
       | _, _, _, _, _, _ => diverge "bad-op"
     | _, _, _, _, _, _, _, _, _ => diverge "bad-op"
   | _ => diverge "bad-op"
 where
-  go (st : St) (id : Bytes) (d : Decoded) (ho : Bool) (cls : String) (nb na bb ba : Nat) : St × String :=
+  /- `wit`: the line comes from the mux stage, where a real handler ran for class `ok`: the signer's balance
+     after an executed transaction is then a witness (transfers, burns) that the model adopts; for every other
+     class, `failed` included, the balance must be exactly what authentication left. -/
+  go (st : St) (wit : Bool) (id : Bytes) (d : Decoded) (ho : Bool) (cls : String) (nb na bb ba : Nat) : St × String :=
     let diverge (msg : String) : St × String := ({ st with dead := true }, "DIVERGE " ++ msg)
     let spec (msg : String) : St × String := ({ st with dead := true }, "SPEC " ++ msg)
     let implAuth := cls == "ok" || cls == "failed"
@@ -178,6 +201,8 @@ where
     if implAuth && !(d.envOk && d.sigOk && d.txOk) then
       spec s!"authenticated without valid envelope/signature (env={d.envOk} sig={d.sigOk} tx={d.txOk})"
     else if implAuth && d.nonce != nb then spec s!"authenticated with nonce {d.nonce} ≠ account nonce {nb}"
+    else if d.envOk && na < nb && !(nb + 1 == nonceMod && na == 0) then
+      spec s!"nonce of account {a} decreased during a transaction: {nb} -> {na}"
     else if implAuth && na != (nb + 1) % nonceMod then spec s!"nonce after authenticated tx {na}, before {nb}"
     else if !implAuth && d.envOk && (na != nb || ba != bb) then
       spec s!"rejected tx changed the account: nonce {nb}->{na} balance {bb}->{ba}"
@@ -185,11 +210,15 @@ where
     else if d.envOk && (lookupNonce st.implNonce a).any (· != nb) then
       spec s!"nonce of signer {a} changed between transactions: {lookupNonce st.implNonce a} -> {nb}"
     else
+    -- mux stage: earlier handlers of the block may have credited this account; its balance is a witness
+    let st := if wit && d.envOk then
+        { st with s := OasisModel.Auth.step st.p (fun _ => d) st.s (.setBalance a bb) } else st
     let acc := st.s.acct a
     if d.envOk && (acc.nonce != nb || acc.balance != bb) then
       diverge s!"account {a} before tx: model nonce={acc.nonce} balance={acc.balance} impl nonce={nb} balance={bb}"
     else
-    let (s', r) := deliver st.p (fun _ => d) st.s id ho
+    let (s0, r) := deliver st.p (fun _ => d) st.s id ho
+    let s' := if wit && r == .ok then OasisModel.Auth.step st.p (fun _ => d) s0 (.setBalance a ba) else s0
     if r.toString != cls then diverge s!"class model={r.toString} impl={cls}"
     else if d.envOk && ((s'.acct a).nonce != na || (s'.acct a).balance != ba) then
       diverge s!"after tx: model nonce={(s'.acct a).nonce} balance={(s'.acct a).balance} impl nonce={na} balance={ba}"
